@@ -1757,6 +1757,7 @@ size_t _GD_DoField(DIRFILE *restrict D, gd_entry_t *restrict E, int repr,
   void *true_data_out = data_out;
   const gd_type_t true_return_type = return_type;
   int out_of_place = 0;
+  int imag_of_real = 0;
 
   dtrace("%p, %p(%s), %i, %" PRId64 ", %" PRIuSIZE ", 0x%X, %p", D, E, E->field,
       repr, (int64_t)first_samp, num_samp, return_type, data_out);
@@ -1811,10 +1812,11 @@ size_t _GD_DoField(DIRFILE *restrict D, gd_entry_t *restrict E, int repr,
   /* short circuit for purely real native types */
   if (~ntype & GD_COMPLEX) {
     if (repr == GD_REPR_IMAG) {
-      memset(data_out, 0, GD_SIZE(return_type) * num_samp);
-      D->recurse_level--;
-      dreturn("%" PRIuSIZE, num_samp);
-      return num_samp;
+      /* the imaginary part is identically zero, but the field still ends
+       * where its data ends: find the number of samples with a null read */
+      imag_of_real = 1;
+      return_type = GD_NULL;
+      repr = GD_REPR_NONE;
     } else if (repr == GD_REPR_REAL)
       repr = GD_REPR_NONE;
   }
@@ -1893,6 +1895,9 @@ size_t _GD_DoField(DIRFILE *restrict D, gd_entry_t *restrict E, int repr,
       _GD_InternalError(D);
       n_read = 0;
   }
+
+  if (imag_of_real && !D->error && n_read > 0)
+    memset(true_data_out, 0, GD_SIZE(true_return_type) * n_read);
 
   /* extract the requested representation */
   if (!D->error && repr != GD_REPR_NONE)
